@@ -292,14 +292,28 @@ def main():
             GENERATORS.update(extract_ffi.GENERATORS)
         except ImportError:
             pass
-        changed = []
+        changed, failed = [], {}
         for fn, g in GENERATORS.items():
-            if write_if_changed(os.path.join(OUT, fn), g()):
+            # one generator that cannot read its source any more breaks the tie only for the properties
+            # whose model uses that file (check.py, GENERATED_FOR); the others are still regenerated
+            try:
+                text = g()
+            except ExtractError as e:
+                failed[fn] = str(e)
+                continue
+            except Exception as e:  # noqa: a translator crash is a broken tie, not a crash of the check
+                failed[fn] = f"{type(e).__name__}: {e}"
+                continue
+            if write_if_changed(os.path.join(OUT, fn), text):
                 changed.append(fn)
+        if failed:
+            for fn, e in failed.items():
+                print(f"extract: TIE BROKEN [{fn}]: {e}", file=sys.stderr)
+            return 2
         print("extract: ok" + (f" (rewrote {', '.join(changed)})" if changed else " (unchanged)"))
         return 0
     except ExtractError as e:
-        print(f"extract: TIE BROKEN: {e}", file=sys.stderr)
+        print(f"extract: TIE BROKEN [*]: {e}", file=sys.stderr)
         return 2
 
 
